@@ -23,6 +23,12 @@ fn run_seed(base: u64, i: u64) -> u64 {
     base.wrapping_mul(1_000_003).wrapping_add(i)
 }
 
+static UNSUPPORTED: std::sync::atomic::AtomicBool = std::sync::atomic::AtomicBool::new(false);
+
+fn kernel_half(rp: &Replay) -> bool {
+    matches!(rp.config.view, steps::View::Recursive { r } if r >= 256)
+}
+
 #[derive(Debug, Clone, PartialEq, Eq)]
 enum Verdict {
     Pass,
@@ -77,6 +83,12 @@ fn run_isolated(rp: &Replay) -> Verdict {
             }
         }
         let code = if libc::WIFEXITED(status) { libc::WEXITSTATUS(status) } else { 128 + libc::WTERMSIG(status) };
+        if code == 4 {
+            // an instruction the redirect machinery (kernel-half recursive index) does not
+            // understand: the run cannot be simulated; neither a violation nor a harness error
+            UNSUPPORTED.store(true, std::sync::atomic::Ordering::Relaxed);
+            return Verdict::Pass;
+        }
         if code == 2 {
             eprintln!("HARNESS-ERROR in isolated run: {out}");
             std::process::exit(2);
@@ -277,6 +289,7 @@ fn stats_json(st: &Stats) -> serde_json::Value {
         "enumerated_failure_masks": st.enum_masks, "enumerated_ranges": st.enum_ranges,
         "tlb_fills": st.tlb_fills, "tlb_checks": st.tlb_checks,
         "runs_repeated_in_a_fresh_process": st.fresh_runs,
+        "kernel_half_recursive_runs": st.kernel_half_runs, "kernel_half_runs_given_up(unsupported instruction)": st.kernel_half_unsupported,
     })
 }
 
@@ -292,7 +305,7 @@ fn main() {
         }
         "replay" => {
             let rp = read_replay(&args[2]);
-            let isolated = args.iter().any(|a| a == "--isolated");
+            let isolated = args.iter().any(|a| a == "--isolated") || kernel_half(&rp);
             let v = if isolated {
                 run_isolated(&rp)
             } else {
@@ -384,7 +397,23 @@ fn main() {
                 }
                 let before = (st.steps, st.calls, st.mmu_faults, st.trapped, st.deallocs);
                 st.evhash = 0;
-                let v = run_replay(&rp, &mut st);
+                let v = if kernel_half(&rp) {
+                    // executed in a forked child: it may have to give up on an instruction
+                    st.runs += 1;
+                    st.kernel_half_runs += 1;
+                    UNSUPPORTED.store(false, std::sync::atomic::Ordering::Relaxed);
+                    let r = match run_isolated(&rp) {
+                        Verdict::Pass => None,
+                        Verdict::Viol(v) => Some(v),
+                        Verdict::Crash(m) => Some(crash_violation(&m, 0)),
+                    };
+                    if UNSUPPORTED.load(std::sync::atomic::Ordering::Relaxed) {
+                        st.kernel_half_unsupported += 1;
+                    }
+                    r
+                } else {
+                    run_replay(&rp, &mut st)
+                };
                 if let Some(f) = logf.as_mut() {
                     // deterministic event summary of the run (for the determinism diff)
                     let _ = writeln!(
